@@ -74,7 +74,7 @@ func c06Build(c *choice.Stream) *c06Case {
 	if c.Bool("rev.old", 1, 4) {
 		rev = revMenu()[c.Draw("rev", len(revMenu()))]
 	}
-	kind := []string{"block", "block-auto", "column", "message", "hostile-type"}[c.Weighted("kind", 6, 3, 3, 3, 1)]
+	kind := []string{"block", "block-auto", "column", "message", "hostile-type", "bare-target"}[c.Weighted("kind", 12, 6, 6, 6, 2, 1)]
 	cs.desc["kind"], cs.desc["revision"] = kind, rev
 	switch kind {
 	case "block", "block-auto":
@@ -168,6 +168,57 @@ func c06Build(c *choice.Stream) *c06Case {
 				return b.Rows, nil, nil, nil
 			}
 			return b.Rows, raw, rts, nil
+		}
+	case "bare-target":
+		// A typed target as a caller writes it down without parameters: the
+		// precision, time zone or enum values are to come from the wire. A valid
+		// block (damaged like any other) of exactly that type.
+		menu := []struct {
+			ty  string
+			new func() proto.ColResult
+		}{
+			{"DateTime64(3)", func() proto.ColResult { return new(proto.ColDateTime64) }},
+			{"DateTime64(6, 'UTC')", func() proto.ColResult { return new(proto.ColDateTime64) }},
+			{"Nullable(DateTime64(3))", func() proto.ColResult { return new(proto.ColDateTime64).Nullable() }},
+			{"Array(DateTime64(9))", func() proto.ColResult { return new(proto.ColDateTime64).Array() }},
+			{"Array(Nullable(DateTime64(3)))", func() proto.ColResult {
+				return proto.NewArray[proto.Nullable[time.Time]](new(proto.ColDateTime64).Nullable())
+			}},
+			{"DateTime('Europe/Berlin')", func() proto.ColResult { return new(proto.ColDateTime) }},
+			{"Nullable(DateTime('UTC'))", func() proto.ColResult { return new(proto.ColDateTime).Nullable() }},
+			{"Enum8('a' = 1, 'b' = 2)", func() proto.ColResult { return new(proto.ColEnum) }},
+			{"Nullable(Enum8('a' = 1, 'b' = 2))", func() proto.ColResult { return proto.NewColNullable[string](new(proto.ColEnum)) }},
+			{"Array(Enum16('p' = 1, 'q' = 300))", func() proto.ColResult { return proto.NewArray[string](new(proto.ColEnum)) }},
+			{"Interval Day", func() proto.ColResult { return new(proto.ColInterval) }},
+		}
+		pick := menu[c.Draw("bare.type", len(menu))]
+		rt, err := refproto.ParseType(pick.ty)
+		if err != nil {
+			panic(err)
+		}
+		rows := c.Range("bare.rows", 1, 4)
+		blk := &refproto.Block{Rows: rows, BucketNum: -1, Cols: []refproto.Column{{Name: "c", Type: pick.ty, Vals: gen.Values(c.Sub("bare.vals"), rt, rows)}}}
+		var w refproto.W
+		if err := refproto.EncodeBlock(&w, rev, blk); err != nil {
+			panic(err)
+		}
+		cs.valid = w.B
+		rr := &refproto.R{B: w.B, Trace: &cs.fields}
+		if _, err := refproto.DecodeBlock(rr, rev); err != nil {
+			panic(err)
+		}
+		cs.desc["type"], cs.desc["rows"] = pick.ty, rows
+		cs.key = "bare-target"
+		cs.decode = func(data []byte) (int, []proto.Column, []*refproto.Type, error) {
+			var b proto.Block
+			tgt := proto.Results{{Name: "c", Data: pick.new()}}
+			if err := b.DecodeBlock(proto.NewReader(&simio.FaultyReader{Data: data}), rev, tgt); err != nil {
+				return 0, nil, nil, err
+			}
+			if b.Columns == 0 {
+				return b.Rows, nil, nil, nil
+			}
+			return b.Rows, []proto.Column{tgt[0].Data.(proto.Column)}, nil, nil
 		}
 	case "hostile-type":
 		// A block header whose column type string is itself the attack: the type
